@@ -112,6 +112,9 @@ def constructed_transformation(rot_dtype, trans_dtype, stacked):
         c, t = np.stack([c, c * 2]), np.stack([t, -t])
     tr = struc.AffineTransformation(c, rot, t)
     pts = rng.uniform(-5, 5, size=(4, 3)).astype(np.float32)
+    if rot_dtype in (int, np.int8):
+        # coordinates given as an integer array (as in the class documentation: np.arange(15).reshape(5, 3))
+        pts = np.arange(12).reshape(4, 3) - 4
     got = np.asarray(tr.apply(np.stack([pts, pts]) if stacked else pts), dtype=float)
     rots = np.asarray(rot, dtype=float).reshape(-1, 3, 3)
     cs, ts = np.asarray(c, dtype=float).reshape(-1, 3), np.asarray(t, dtype=float).reshape(-1, 3)
